@@ -31,6 +31,10 @@ structure Inst where
 structure DState where
   insts : List Inst := []
   hashes : List (Key × Nat) := []
+  /-- (store, key) pairs whose last simple write may have left an EMPTY value behind (Put / Import of an
+  empty or nil value): such a key may or may not be listed by RangeKeys (empty ≡ absent); a Delete,
+  a non-empty Put or RemoveKeys clears the mark. -/
+  maybeEmpty : List (String × Key) := []
 
 def backendOf (name : String) : Option Backend :=
   if name.startsWith "mem" then some .memory
@@ -146,7 +150,7 @@ def ringM : Nat := 2^48
 /-- C17 range verdict from the statement: every key holding (non-empty) data with hash in (lo, hi]
 is listed; nothing outside the range and nothing that was never written / was removed is listed.
 Keys whose only content is an empty simple value may or may not be listed (empty ≡ absent). -/
-def rangeSpecFail (st : DState) (s : Store) (lo hi : Nat) (impl : List Key) : Option String :=
+def rangeSpecFail (st : DState) (iname : String) (s : Store) (lo hi : Nat) (impl : List Key) : Option String :=
   let inQ := lo < ringM && hi < ringM && s.dom.all (fun k => st.hash k < ringM) && impl.all (fun k => st.hash k < ringM)
   if !inQ then none else
   let required := s.dom.filter fun k => (s.ent k).held && Spec.inRing lo (st.hash k) hi
@@ -158,7 +162,10 @@ def rangeSpecFail (st : DState) (s : Store) (lo hi : Nat) (impl : List Key) : Op
     | none =>
       match impl.find? (fun k => !s.dom.contains k) with
       | some k => some s!"range: listed key {hx k} holds no data"
-      | none => if impl.eraseDups.length ≠ impl.length then some "range: key listed twice" else none
+      | none =>
+        match impl.find? (fun k => !(s.ent k).held && !st.maybeEmpty.contains (iname, k)) with
+        | some k => some s!"range: listed key {hx k} holds no data any more (its data was deleted)"
+        | none => if impl.eraseDups.length ≠ impl.length then some "range: key listed twice" else none
 
 /-- generic (non-lease) operation: run model and contract, compare -/
 def runOp (w : Which) (st : DState) (i : Inst) (op : Op) (impl : Out) (extra : Option String := none) :
@@ -169,7 +176,7 @@ def runOp (w : Which) (st : DState) (i : Inst) (op : Op) (impl : Out) (extra : O
   let specFail : Option String :=
     if !judged w op then none else
     match op, impl with
-    | .rangeKeys lo hi, .keys ks => rangeSpecFail st i.s lo hi ks
+    | .rangeKeys lo hi, .keys ks => rangeSpecFail st i.name i.s lo hi ks
     | _, _ => if renderOut true impl = renderOut true so then none else some ("contract=" ++ renderOut true so)
   match specFail with
   | some why => (st', .spec why)
@@ -211,7 +218,38 @@ def runLease (w : Which) (st : DState) (i : Inst) (ttl : Int) (t0 t1 : Nat) (mk 
 def leaseErrs : List (String × Out) :=
   [("conflict", .leaseConflict), ("expired", .leaseExpired), ("invalidttl", .invalidTTL)]
 
-def stepW (w : Which) (st : DState) (toks : List String) (rhs : String) : DState × Verdict :=
+/-- bookkeeping of `maybeEmpty` for one acknowledged operation -/
+def markEmpty (st : DState) (toks : List String) (rhs : String) : DState :=
+  if rhs.startsWith "err" || rhs = "panic" then st else
+  match toks with
+  | ["put", name, k, v] =>
+    match hexToBytes k with
+    | some k =>
+      let cleared := st.maybeEmpty.filter (· != (name, k))
+      if v = "nil" || v = "-" then { st with maybeEmpty := (name, k) :: cleared } else { st with maybeEmpty := cleared }
+    | none => st
+  | ["del", name, k] =>
+    match hexToBytes k with
+    | some k => { st with maybeEmpty := st.maybeEmpty.filter (· != (name, k)) }
+    | none => st
+  | ["remove", name, ks] =>
+    let l := if ks = "[]" then [] else (ks.splitOn ",").filterMap hexToBytes
+    { st with maybeEmpty := st.maybeEmpty.filter fun p => !(p.1 == name && l.contains p.2) }
+  | "import" :: name :: kvs =>
+    kvs.foldl (fun st kv =>
+      match kv.splitOn "=" with
+      | [k, e] =>
+        match hexToBytes k with
+        | some k =>
+          let v := (e.splitOn "/").headD ""
+          -- an imported nil / empty value may leave an empty value (or keep an older empty one)
+          if v = "nil" || v = "-" then { st with maybeEmpty := (name, k) :: st.maybeEmpty }
+          else { st with maybeEmpty := st.maybeEmpty.filter (· != (name, k)) }
+        | none => st
+      | _ => st) st
+  | _ => st
+
+def stepW0 (w : Which) (st : DState) (toks : List String) (rhs : String) : DState × Verdict :=
   match toks with
   | ["reset"] => ({}, .ok)
   | ["sleep", _] => (st, .ok)
@@ -293,6 +331,10 @@ def stepW (w : Which) (st : DState) (toks : List String) (rhs : String) : DState
         | _, _ => bad
       | _, _ => (st, .bad "unknown op")
   | _ => (st, .bad "unknown line")
+
+def stepW (w : Which) (st : DState) (toks : List String) (rhs : String) : DState × Verdict :=
+  let (st', v) := stepW0 w st toks rhs
+  (markEmpty st' toks rhs, v)
 
 def mainFor (w : Which) : IO Unit := runLoop ({} : DState) (stepW w)
 
